@@ -19,7 +19,7 @@ RESPONSE flag, unicast bit; None iff nothing matches). Universe U0 (exhaustive):
 cached}; all stores of <= 3 (quick) / <= 4 (thorough) records x all queries of <= 2 questions over 6 names x {A,SRV,TXT,ANY} x {IN,ANY}. Universe U1 (random): histories \
 of add-authoritative/add-cached/remove/clear over colliding label alphabets, 9 record types, classes IN/CH, QTYPE incl. ANY/MAILB, each followed by queries. \
 non-trivial = (store, query) with a non-empty store and at least one question; distinct = hash of (store, query)",
-        assumptions: &["set comparison (reply order comes from hash maps)", "TTLs are not compared", "an identity never flips between authoritative and cached within a history (C20 covers that)"],
+        assumptions: &["set comparison (reply order comes from hash maps)", "TTLs are not compared", "a record both registered and received stays authoritative (the model follows C20's statement); cached copies with the cache-flush bit are not generated here (expiry is C20's subject)"],
         exhaustive: true,
         min_distinct: 100_000,
     }
@@ -299,14 +299,28 @@ fn u1(ctx: &mut Ctx) {
         for _ in 0..steps {
             match r.below(10) {
                 0..=4 => {
-                    let rec = u1_record(&mut r, &names);
+                    let mut rec = u1_record(&mut r, &names);
+                    // sometimes re-use an identity that is already stored (same record received again / registered again)
+                    if !members.is_empty() && r.chance(1, 4) {
+                        rec = members[r.usize(0, members.len() - 1)].0.clone();
+                        rec.ttl = *r.pick(&[100_000u32, 4500, 120]);
+                        rec.flush = r.chance(1, 3);
+                    }
                     let auth = r.chance(2, 3);
                     let id = ident_of(&rec);
-                    if let Some((_, k)) = members.iter().find(|(m, _)| ident_of(m) == id) {
-                        if *k != auth {
-                            continue; // never flip an identity between kinds here
+                    if let Some(slot) = members.iter_mut().find(|(m, _)| ident_of(m) == id) {
+                        // registered records stay authoritative when also received from the network; a cached record
+                        // that is then registered becomes authoritative
+                        if auth {
+                            slot.1 = true;
+                        }
+                        if !slot.1 && rec.flush {
+                            continue; // a cache-flush copy of a cached record lives one second: expiry is C20's subject
                         }
                     } else {
+                        if !auth && rec.flush {
+                            continue;
+                        }
                         members.push((rec.clone(), auth));
                     }
                     let rr = bridge::lib_record(&rec).unwrap().into_owned();
